@@ -834,7 +834,8 @@ func Eval(t *Term, m map[string]uint64, memo map[*Term]uint64) (v uint64, ok boo
 		return m[t.Name], true
 	}
 	if t.Op == OUF {
-		return 0, false
+		v, ok := m[UFModelKey(t)]
+		return v, ok
 	}
 	var a [3]uint64
 	if t.Op == OIte {
@@ -986,6 +987,8 @@ type Printer struct {
 	n     int
 	Out   *strings.Builder // pending declarations / definitions
 	VarOrder []string
+	UFNodes  []*Term  // every UF application printed so far
+	UFNames  []string // their define-fun names (parallel to UFNodes)
 }
 
 func NewPrinter() *Printer {
@@ -1081,8 +1084,16 @@ func (p *Printer) Ref(t *Term) string {
 	n := fmt.Sprintf("t%d", p.n)
 	fmt.Fprintf(p.Out, "(define-fun %s () %s %s)\n", n, t.S, body)
 	p.names[t] = n
+	if t.Op == OUF {
+		p.UFNodes = append(p.UFNodes, t)
+		p.UFNames = append(p.UFNames, n)
+	}
 	return n
 }
+
+// UFModelKey is the key under which a model stores the value of the UF
+// application t (the solver's interpretation at these arguments).
+func UFModelKey(t *Term) string { return "@ufapp:" + t.Key() }
 
 // Flush returns and clears pending text.
 func (p *Printer) Flush() string {
